@@ -17,7 +17,7 @@ RULE = ("Sequential: for every assignment of kinds {module glue, built-in glue, 
         "contents relative to the base, reference run counts capped at 2); each state is rebuilt by replaying its history on the "
         "real library. Oracle at every extract: exactly the glue the reference model expects ran (module fn once per module "
         "object, built-in at most once ever and never for a module that has its own, raising glue -> one RuntimeWarning and the "
-        "others still run). Concurrent: every schedule with <= B preemptions of 2 extracting threads (+ an environment thread "
+        "others still run). Concurrent: every schedule with <= B preemptions of 2-3 extracting threads (thorough: also 4, with <= 1 preemption) (+ an environment thread "
         "that removes/adds modules) at line granularity inside add_glue_as_needed; invariant: no glue twice, never both kinds, "
         "the first extraction that started after a module appeared does not return before that module's glue ran, no deadlock.")
 ASSUMPTIONS = [
@@ -309,7 +309,10 @@ CONC_SCENARIOS = [
     ({"vmod_a": "builtin", "vmod_b": "module", "vmod_c": "raising_builtin"}, [("add", "vmod_c"), ("extract",), ("remove", "vmod_c"), ("add", "vmod_a")],
      [("add", "vmod_b")], 2),
     ({"vmod_a": "both", "vmod_b": "both", "vmod_c": "neither"}, [("add", "vmod_a"), ("add", "vmod_b")], [], 3),
+    # four extracting threads + environment (thorough tier only, at most one preemption)
+    ({"vmod_a": "module", "vmod_b": "raising_builtin", "vmod_c": "both"}, [("add", "vmod_a"), ("add", "vmod_b")], [("add", "vmod_c")], 4),
 ]
+FOUR_THREAD_SCENARIOS = (5,)
 
 
 _LF = {}
@@ -480,7 +483,12 @@ def run_conc(ctx):
     for si in range(len(CONC_SCENARIOS)):
         if not ctx.mine(si):
             continue
-        res = run_conc_scenario(W, si, bound, ctx)
+        sbound = bound
+        if si in FOUR_THREAD_SCENARIOS:
+            if ctx.tier == "quick":
+                continue
+            sbound = 1
+        res = run_conc_scenario(W, si, sbound, ctx)
         ctx.count("schedules", res["executions"])
         ctx.count("evaluations", res["executions"])
         ctx.count("states", res["points"])
@@ -489,7 +497,7 @@ def run_conc(ctx):
         ctx.count("distinct_nontrivial", res["distinct_outcomes"])
         ctx.count("distinct_outcomes", res["distinct_outcomes"])
         ctx.sample({"leg": "conc", "scenario": si, "schedules": res["executions"], "points": res["points"],
-                    "distinct_outcomes": res["distinct_outcomes"], "preemption_bound": bound})
+                    "distinct_outcomes": res["distinct_outcomes"], "preemption_bound": sbound})
         for choices, problems in res["violations"]:
             ctx.violation({"leg": "conc", "scenario": si, "choices": choices}, "; ".join(problems)[:1200], "conc:" + problems[0].split(" ")[0])
     W.reset(dict((n, "neither") for n in NAMES))
